@@ -44,7 +44,8 @@ Judge(c, r) ==
                                  [data |-> r.err = s.err /\ r.n = s.pos /\ r.after = content, pos |-> s.pos, closedcase |-> FALSE]
          [] c.api = "Stat"    -> [data |-> r.err = "" /\ r.n = Len(content) /\ r.after = content, pos |-> offset, closedcase |-> FALSE]
          [] c.api = "Truncate" -> [data |-> r.err = "" /\ r.after = Resize(content, c.len), pos |-> offset, closedcase |-> FALSE]
-         [] c.api = "Close"   -> [data |-> r.err = "" /\ r.after = content, pos |-> offset, closedcase |-> FALSE]
+         \* the server may answer CLOSE with a failure status (c.srvfail): Close reports it, and the File is closed all the same
+         [] c.api = "Close"   -> [data |-> r.err = (IF c.srvfail THEN "fail" ELSE "") /\ r.after = content, pos |-> offset, closedcase |-> FALSE]
          [] OTHER             -> [data |-> FALSE, pos |-> offset, closedcase |-> FALSE]
 
 Step(e) ==
